@@ -152,3 +152,8 @@ package xpair
 //@   ensures result.Self == 16 && result.Peer == 16 && result.SelfName == "pair" && result.PeerName == "pair"
 //@
 // ---- end generated Info contracts ----
+
+// ---- round 10 (C10 "later calls fail with a closed error"): Send on a closed socket ----
+//@ func (*socket).SendMsg
+//@   ghost wasclosed = s.closed at call:Lock#1
+//@   ensures wasclosed ==> result == protocol.ErrClosed
